@@ -106,6 +106,21 @@ def j_nick(ctx):
             obs.append(('nick:source', 'NICK: the user is known by its new nick!user@host', Implies(ok, M.values_equal(un['source'], mkstr(want_src)))))
         hl = post.histories.get(a, (False, None))[0]
         obs.append(('nick:history', 'NICK: the old nick is recorded for WHOWAS', Implies(ok, hl)))
+        # ... with the identity the user had: user name, host, real name and sign-on time (not the time of its last activity)
+        try:
+            hv = post.histories.get(a, (False, None))[1]
+            vec = M.rdd(hv) if isinstance(hv, (Ref, BoxV)) else (hv.v if isinstance(hv, Cell) else hv)
+            if isinstance(vec, VecV) and vec.items:
+                ent = vec.items[-1].v
+                uc = w.user_cells[a].v
+                so_user = fld(ctx.prog, uc, 'signon')
+                g = lambda n_: fld(ctx.prog, ent, n_)
+                same_time = (g('signon') == so_user) if (is_sym(g('signon')) or is_sym(so_user)) else (g('signon') == so_user)
+                obs.append(('nick:history-entry', 'NICK: the WHOWAS record carries the sign-on time of the user', Implies(ok, same_time)))
+                obs.append(('nick:history-entry', 'NICK: the WHOWAS record carries the user name, host and real name of the user',
+                            Implies(ok, And(M.values_equal(g('username'), mkstr(w.spec.uname(a))), M.values_equal(g('hostname'), mkstr('127.0.0.1')), M.values_equal(g('realname'), mkstr('Real ' + a))))))
+        except Exception:
+            pass
         cn = fld(ctx.prog, fld(ctx.prog, ctx.conn['cell'].v, 'user_state'), 'nick')
         obs.append(('nick:conn', 'NICK: the connection goes by the new nick exactly when accepted',
                     Iff(M.values_equal(cn.fields[0], mkstr(new)), ok)))
@@ -220,6 +235,16 @@ def j_view_names(ctx):
                 for rk, ch in order:
                     # a shown prefix is a held rank
                     if ch in pf: obs.append(('view:prefix', f'NAMES {c}: prefix {ch} of {n} is a rank it holds', pre.rank(n, c, rk)))
+                # which prefixes: all held ranks for an observer with the multi-prefix capability, otherwise only the highest one
+                try:
+                    mp = fld(ctx.prog, fld(ctx.prog, ctx.conn['cell'].v, 'caps'), 'multi_prefix')
+                except Exception:
+                    mp = None
+                if mp is not None:
+                    for i, (rk, ch) in enumerate(order):
+                        higher = Or(*[pre.rank(n, c, r2) for r2, _ in order[:i]]) if i else False
+                        obs.append(('view:prefix', f'NAMES {c}: {n} is shown with {ch} exactly when it holds that rank and (multi-prefix or no higher rank)',
+                                    Iff(ch in pf, And(pre.rank(n, c, rk), Or(mp, Not(higher))))))
                 top = None
                 anyrank = Or(*[pre.rank(n, c, rk) for rk, _ in order])
                 obs.append(('view:prefix', f'NAMES {c}: {n} carries a prefix exactly when it holds a rank', Iff(len(pf) > 0, anyrank)))
